@@ -63,7 +63,23 @@ def probe(ts):
                 out.append((ts.detect_type(s).__name__, ts.infer_type(s).__name__, [repr(v) for v in ts.cast_to_inferred(s)][:4]))
         except Exception as e:  # noqa
             out.append("raise:" + type(e).__name__)
+    # frames with several string labels: key order of the answers and column order of the casts are part of the result
+    for r in FRAME_PROBES:
+        try:
+            with warnings.catch_warnings():
+                warnings.simplefilter("ignore")
+                df = streams.build(r)
+                it, dt = ts.infer_type(df), ts.detect_type(df)
+                out.append(([(str(k), v.__name__) for k, v in it.items()], [str(k) for k in dt], [str(c) for c in ts.cast_to_inferred(df).columns],
+                            [str(c) for c in ts.cast_to_detected(df).columns], [str(k) for k in ts.infer(df)[1]]))
+        except Exception as e:  # noqa
+            out.append("raise:" + type(e).__name__)
     return out
+
+
+FRAME_PROBES = ["pd.DataFrame({'zeta': ['1', '2'], 'alpha': [1.5, 2.5], 'mid': ['x', 'y'], 'beta': [True, False], 'omega': ['2020-01-01', '2021-01-01'], 'b2': [1, 2]})",
+                "pd.DataFrame({'col_%d' % i: [str(i), str(i + 1)] for i in range(12)})",
+                "pd.DataFrame({'a': [1], 'B': ['x'], 'c c': [2.5], '': [None], '0': ['0']})"]
 
 
 def random_history(rnd, ts_pool, n):
@@ -170,19 +186,19 @@ def history_check(rnd, n_hist, hist_len):
             fresh = probe(CompleteSet())
         if after != before:
             k = next(i for i, (a, b) in enumerate(zip(before, after)) if a != b)
-            fails.append({"what": f"probe {PROBES[k]} answered {before[k]} before and {after[k]} after a history of API calls on the same typeset object",
-                          "class": "history-dependent", "history": h, "recipe": PROBES[k]})
+            fails.append({"what": f"probe {(PROBES + FRAME_PROBES)[k]} answered {before[k]} before and {after[k]} after a history of API calls on the same typeset object",
+                          "class": "history-dependent", "history": h, "recipe": (PROBES + FRAME_PROBES)[k]})
         if fresh != before:
             k = next(i for i, (a, b) in enumerate(zip(before, fresh)) if a != b)
-            fails.append({"what": f"probe {PROBES[k]} answered {before[k]} on the first CompleteSet() and {fresh[k]} on one created after a history of API calls",
-                          "class": "history-dependent-fresh", "history": h, "recipe": PROBES[k]})
+            fails.append({"what": f"probe {(PROBES + FRAME_PROBES)[k]} answered {before[k]} on the first CompleteSet() and {fresh[k]} on one created after a history of API calls",
+                          "class": "history-dependent-fresh", "history": h, "recipe": (PROBES + FRAME_PROBES)[k]})
     return fails
 
 
 SUB = r'''
 import json, sys, warnings
 warnings.simplefilter("ignore")
-sys.path.insert(0, "/verif")
+sys.path.insert(0, '__VERIF__')
 from vfw import c10
 from visions.typesets import CompleteSet
 print(json.dumps(c10.probe(CompleteSet())))
@@ -192,8 +208,8 @@ print(json.dumps(c10.probe(CompleteSet())))
 def subprocess_probe(seeds):
     outs = {}
     for sd in seeds:
-        env = dict(os.environ, PYTHONHASHSEED=str(sd), PYTHONPATH="/verif:" + os.path.join(C.REPO, "src"))
-        p = subprocess.run([sys.executable, "-W", "ignore", "-c", SUB], env=env, capture_output=True, text=True, timeout=600)
+        env = dict(os.environ, PYTHONHASHSEED=str(sd), PYTHONPATH=C.VERIF + ":" + os.path.join(C.REPO, "src"))
+        p = subprocess.run([sys.executable, "-W", "ignore", "-c", SUB.replace("__VERIF__", C.VERIF)], env=env, capture_output=True, text=True, timeout=600)
         outs[sd] = p.stdout.strip().split("\n")[-1] if p.returncode == 0 else "crash:" + p.stderr[-200:]
     return outs
 
@@ -240,8 +256,8 @@ def run(args):
         a, b = [k for k in outs if outs[k] == vals[0]][0], [k for k in outs if outs[k] != vals[0]][0]
         pa, pb = json.loads(outs[a]) if not outs[a].startswith("crash") else outs[a], json.loads(outs[b]) if not outs[b].startswith("crash") else outs[b]
         k = next((i for i, (x, y) in enumerate(zip(pa, pb)) if x != y), 0) if isinstance(pa, list) and isinstance(pb, list) else 0
-        fails.append({"what": f"probe {PROBES[k]} differs between fresh processes with PYTHONHASHSEED={a} and {b}: {str(pa[k])[:80]} vs {str(pb[k])[:80]}",
-                      "class": "hashseed-dependent", "recipe": PROBES[k], "seeds": [a, b]})
+        fails.append({"what": f"probe {(PROBES + FRAME_PROBES)[k]} differs between fresh processes with PYTHONHASHSEED={a} and {b}: {str(pa[k])[:80]} vs {str(pb[k])[:80]}",
+                      "class": "hashseed-dependent", "recipe": (PROBES + FRAME_PROBES)[k], "seeds": [a, b]})
     run.cov["evaluations"] = (60 if deep else 8) * (60 if deep else 25) + len(outs)
     run.cov["distinct_nontrivial"] = (60 if deep else 8)
     run.cov["property_oracle_cases_on_impl"] = run.cov["evaluations"]
